@@ -417,6 +417,28 @@ func (m *Machine) hexEncode(b *smt.Term, n int) *smt.Term {
 	return e
 }
 
+// pcLen returns the length the path condition fixes for the string term t (a draw with a stated
+// length), or -1.
+func (m *Machine) pcLen(t *smt.Term) int {
+	if t.IsConst() {
+		return len(t.S)
+	}
+	l := smt.StrLen(t)
+	for _, c := range m.pc {
+		if c.Op != "=" || len(c.Args) != 2 {
+			continue
+		}
+		a, b := c.Args[0], c.Args[1]
+		if a == l && b.IsConst() && b.Val != nil {
+			return int(b.Val.Int64())
+		}
+		if b == l && a.IsConst() && a.Val != nil {
+			return int(a.Val.Int64())
+		}
+	}
+	return -1
+}
+
 func (m *Machine) hexDecode(s *smt.Term) (okc *smt.Term, data *smt.Term) {
 	if s.IsConst() {
 		d, err := hex.DecodeString(s.S)
@@ -565,6 +587,10 @@ func init() {
 	}
 	I["zzverif.GoLogical"] = func(m *Machine, fn *ssa.Function, args []Value) Value {
 		m.GoLogical = args[0].(*smt.Term).IsTrue()
+		return nil
+	}
+	I["zzverif.JSONUnbounded"] = func(m *Machine, fn *ssa.Function, args []Value) Value {
+		m.ghost["json.unbounded"] = true
 		return nil
 	}
 	I["zzverif.JSONArbitrary"] = func(m *Machine, fn *ssa.Function, args []Value) Value {
@@ -800,6 +826,35 @@ func init() {
 			return TupleV{&SliceV{Arr: c, Len: -1, Cap: -1}, &IfaceV{}}
 		}
 		return TupleV{(*SliceV)(nil), m.newError(smt.StrC("encoding/hex: invalid string"), nil)}
+	}
+
+	I["encoding/hex.DecodedLen"] = func(m *Machine, fn *ssa.Function, args []Value) Value {
+		return smt.BVLshr(args[0].(*smt.Term), smt.BVC(64, 1))
+	}
+	I["encoding/hex.EncodedLen"] = func(m *Machine, fn *ssa.Function, args []Value) Value {
+		return smt.BVShl(args[0].(*smt.Term), smt.BVC(64, 1))
+	}
+	// hex.Decode(dst, src): decode like DecodeString, then copy into dst (the real function panics when
+	// dst is too short: callers check DecodedLen first, an overflow here ends the path as panic)
+	I["encoding/hex.Decode"] = func(m *Machine, fn *ssa.Function, args []Value) Value {
+		src, ok := args[1].(*SliceV)
+		if !ok || src == nil {
+			return TupleV{smt.BVC(64, 0), &IfaceV{}}
+		}
+		okc, data := m.hexDecode(m.bytesToString(src))
+		if !m.branch(okc, nil) {
+			return TupleV{smt.BVC(64, 0), m.newError(smt.StrC("encoding/hex: invalid string"), nil)}
+		}
+		var dec *SliceV
+		if data.IsConst() {
+			dec = m.stringToBytes(data)
+		} else {
+			k := m.pcLen(data)
+			c := m.newCell(&OpaqueBytes{T: data, N: k}, nil, "hexdec")
+			dec = &SliceV{Arr: c, Len: k, Cap: k}
+		}
+		n := m.copyOp(args[0], dec)
+		return TupleV{n, &IfaceV{}}
 	}
 
 	// ---- strings / strconv ----
@@ -1183,8 +1238,11 @@ func init() {
 			tn = iv.T.String()
 		}
 		t := m.ufOver("json<"+tn+">", smt.Str, iv.V)
-		// bound (stated in the evidence): marshalled payloads are shorter than 60000 bytes
-		smt.AddAxiom(smt.IntLe(smt.StrLen(t), smt.IntC(60000)))
+		// bound (stated in the evidence): marshalled payloads are shorter than 60000 bytes, unless the
+		// harness asks for arbitrarily long encodings (zzverif.JSONUnbounded)
+		if on, _ := m.ghost["json.unbounded"].(bool); !on {
+			smt.AddAxiom(smt.IntLe(smt.StrLen(t), smt.IntC(60000)))
+		}
 		m.ghostJSON(t, iv)
 		return TupleV{m.bytesValue(t, -1), &IfaceV{}}
 	}
